@@ -56,32 +56,27 @@ Proof.
   destruct x as [sx|sx| |sx mx ex]; try discriminate;
     destruct y as [sy|sy| |sy my ey]; try discriminate;
     try destruct sx; try destruct sy; try reflexivity.
-  - (* both negative *)
-    unfold fkey, cmp3, SFcompare.
-    change (-1 ?= -1)%Z with Eq. cbv iota.
-    rewrite Z.compare_opp, (Z.compare_antisym ex ey).
-    change (Z.neg mx ?= Z.neg my)%Z with (CompOpp (mx ?= my)%positive).
-    unfold Pos.compare. destruct (ex ?= ey)%Z; reflexivity.
-  - (* both positive *)
-    unfold fkey, cmp3, SFcompare.
-    change (1 ?= 1)%Z with Eq. cbv iota.
-    change (Z.pos mx ?= Z.pos my)%Z with (mx ?= my)%positive.
-    unfold Pos.compare. destruct (ex ?= ey)%Z; reflexivity.
+  (* both negative finite (every other case computes) *)
+  unfold fkey, cmp3, SFcompare.
+  change (-1 ?= -1)%Z with Eq. cbv iota.
+  rewrite Z.compare_opp, (Z.compare_antisym ex ey).
+  change (Z.neg mx ?= Z.neg my)%Z with (CompOpp (mx ?= my)%positive).
+  unfold Pos.compare. destruct (ex ?= ey)%Z; reflexivity.
 Qed.
 
 Lemma cmp3_lt a b : cmp3 a b = Lt <-> klt a b.
 Proof.
   destruct a as [[a1 a2] a3], b as [[b1 b2] b3]. unfold cmp3, klt.
   destruct (Z.compare_spec a1 b1), (Z.compare_spec a2 b2), (Z.compare_spec a3 b3);
-    split; intro H; try discriminate; try reflexivity; try lia.
+    split; intro HH; try discriminate; try reflexivity; try lia.
 Qed.
 
 Lemma cmp3_eq a b : cmp3 a b = Eq <-> a = b.
 Proof.
   destruct a as [[a1 a2] a3], b as [[b1 b2] b3]. unfold cmp3.
   destruct (Z.compare_spec a1 b1), (Z.compare_spec a2 b2), (Z.compare_spec a3 b3);
-    split; intro H; try discriminate; try reflexivity; subst;
-    try (injection H; intros; subst); try lia; try reflexivity.
+    split; intro HH; try discriminate; try reflexivity; subst;
+    try (injection HH; intros; subst); try lia; try reflexivity.
 Qed.
 
 Lemma fltb_klt x y :
@@ -277,3 +272,765 @@ End MergeSort.
 
 Print Assumptions merge_sort_perm.
 Print Assumptions merge_sort_stable_sorted.
+
+(* ==================================================================================== *)
+(* D. makeLessFunc                                                                      *)
+(* ==================================================================================== *)
+(* the keys buildSortInfo lets through for a term of kind k, NaN excluded *)
+Definition val_ok (k : nat) (p : value) : Prop :=
+  match p with
+  | VNum x => k = 1 /\ not_nan x
+  | VStr _ => k = 2
+  | _ => False
+  end.
+Definition key_ok (k : nat) (v : ovalue) : Prop := key_typed k v /\ key_not_nan v.
+Definition tuple_ok (kinds : list nat) (ks : list ovalue) : Prop := Forall2 key_ok kinds ks.
+
+Lemma key_ok_opt_dom k v : key_ok k v -> opt_dom (val_ok k) v.
+Proof.
+  intros [T N]. destruct v as [p|]; [|exact I]. destruct p; simpl in *; auto.
+Qed.
+
+Lemma tuple_ok_of kinds ks : tuple_typed kinds ks -> Forall key_not_nan ks -> tuple_ok kinds ks.
+Proof.
+  intro T. induction T as [|k v kinds ks Hk T IH]; intro N; [constructor|].
+  apply Forall_cons_iff in N as [N1 N2]. constructor; [split; assumption | exact (IH N2)].
+Qed.
+
+(* numbers numerically / strings bytewise is a strict weak order on one kind of key *)
+Lemma key_lt_swo k : swo_on key_lt (val_ok k).
+Proof.
+  split.
+  - intros [] Pa; simpl in *; try contradiction.
+    + now apply (swo_irrefl _ _ fltb_swo).
+    + apply sltb_irrefl.
+  - intros [] [] [] Pa Pb Pc; simpl in *; try contradiction; try congruence; try lia.
+    + apply (swo_trans _ _ fltb_swo); tauto.
+    + apply sltb_trans.
+  - intros [|?|x|x|?|?|?] [|?|y|y|?|?|?] [|?|z|z|?|?|?] Pa Pb Pc; simpl in *;
+      try contradiction; try lia.
+    + change (equiv fltb x y = true -> equiv fltb y z = true -> equiv fltb x z = true).
+      apply (swo_equiv_trans _ _ fltb_swo); tauto.
+    + change (equiv sltb x y = true -> equiv sltb y z = true -> equiv sltb x z = true).
+      now apply (swo_equiv_trans _ _ sltb_swo).
+Qed.
+
+Lemma dir_lt_swo d k : swo_on (dir_lt d) (val_ok k).
+Proof.
+  destruct d; cbn [dir_lt]; [apply key_lt_swo | apply key_lt_swo |].
+  apply (swo_flip key_lt), key_lt_swo.
+Qed.
+
+(* one term: direction on present keys, absent keys last *)
+Lemma term_lt_swo d k : swo_on (term_lt d) (key_ok k).
+Proof.
+  apply (swo_weaken _ (opt_dom (val_ok k))); [apply key_ok_opt_dom|].
+  apply swo_opt_last, dir_lt_swo.
+Qed.
+
+(* eq / lt of eval.go on keys of one kind *)
+Lemma lt_values_key_lt p q : match lt_values p q with Some t => t | None => false end = key_lt p q.
+Proof. destruct p, q; reflexivity. Qed.
+
+Lemma eq_values_equiv k p q : val_ok k p -> val_ok k q -> eq_values p q = equiv key_lt p q.
+Proof.
+  destruct p, q; simpl; try contradiction; try lia.
+  - intros [_ Np] [_ Nq]. now apply feqb_equiv.
+  - intros _ _. apply seqb_equiv.
+Qed.
+
+Lemma equiv_dir_lt d p q : equiv (dir_lt d) p q = equiv key_lt p q.
+Proof. destruct d; try reflexivity. simpl. unfold flip_lt, equiv. apply andb_comm. Qed.
+
+(* the comparison of one term in makeLessFunc *)
+Lemma sort_less_cons_some d tr p q ra rb :
+  sort_less (d :: tr) (Some p :: ra) (Some q :: rb)
+  = if eq_values p q then sort_less tr ra rb else dir_lt d p q.
+Proof.
+  cbn [sort_less]. destruct (eq_values p q); [reflexivity|].
+  destruct d; simpl; unfold flip_lt; apply lt_values_key_lt.
+Qed.
+
+(* makeLessFunc is the lexicographic key order, term by term *)
+Lemma sort_less_step d tr k x y ra rb :
+  key_ok k x -> key_ok k y ->
+  sort_less (d :: tr) (x :: ra) (y :: rb)
+  = term_lt d x y || (negb (term_lt d y x) && sort_less tr ra rb).
+Proof.
+  intros Hx Hy. destruct x as [p|], y as [q|]; try reflexivity.
+  rewrite sort_less_cons_some.
+  apply key_ok_opt_dom in Hx, Hy. simpl in Hx, Hy.
+  rewrite (eq_values_equiv k p q Hx Hy), <- (equiv_dir_lt d). unfold term_lt, opt_last, equiv.
+  destruct (dir_lt d p q), (dir_lt d q p); reflexivity.
+Qed.
+
+Theorem sort_less_lex : forall ds kinds ka kb,
+  tuple_ok kinds ka -> tuple_ok kinds kb -> sort_less ds ka kb = lex_lt ds ka kb.
+Proof.
+  induction ds as [|d tr IH]; intros kinds ka kb Ha Hb; [reflexivity|].
+  destruct Ha as [|k x kinds' ra Hx Ha]; [reflexivity|].
+  inversion Hb as [|? y ? rb Hy Hb']; subst.
+  rewrite (sort_less_step d tr k x y ra rb Hx Hy), (IH kinds' ra rb Ha Hb'). reflexivity.
+Qed.
+
+(* the lexicographic key order is a strict weak order on well-typed NaN-free key tuples *)
+Theorem lex_lt_swo : forall ds kinds, swo_on (lex_lt ds) (tuple_ok kinds).
+Proof.
+  induction ds as [|d tr IH]; intro kinds.
+  - split.
+    + intros; reflexivity.
+    + intros a b c _ _ _ H. simpl in H. discriminate.
+    + intros; reflexivity.
+  - destruct kinds as [|k kinds'].
+    + split.
+      * intros a Pa. inversion Pa; subst. reflexivity.
+      * intros a b c Pa Pb Pc. inversion Pa; subst. discriminate.
+      * intros a b c Pa Pb Pc. inversion Pa; inversion Pc; subst. reflexivity.
+    + set (split := fun ka : list ovalue => (hd None ka, tl ka)).
+      apply (swo_ext (on_key split (lex_pair (term_lt d) (lex_lt tr)))).
+      * intros a b Pa Pb. inversion Pa; inversion Pb; subst. reflexivity.
+      * apply (swo_weaken _ (fun ka => key_ok k (fst (split ka)) /\ tuple_ok kinds' (snd (split ka)))).
+        { intros a Pa. inversion Pa; subst. split; assumption. }
+        apply (swo_on_key split (lex_pair (term_lt d) (lex_lt tr))
+                 (fun p => key_ok k (fst p) /\ tuple_ok kinds' (snd p))).
+        apply swo_lex_pair; [apply term_lt_swo | apply IH].
+Qed.
+
+(* C13.3 : makeLessFunc is a strict weak order on the key tuples of a successful
+   buildSortInfo (NaN-free) *)
+Theorem sort_less_swo ds kinds : swo_on (sort_less ds) (tuple_ok kinds).
+Proof.
+  apply (swo_ext (lex_lt ds)); [|apply lex_lt_swo].
+  intros a b Pa Pb. symmetry. now apply (sort_less_lex ds kinds).
+Qed.
+
+(* absent keys are last, whatever the direction and whatever follows *)
+Theorem sort_less_missing_last d ds p xs ys :
+  sort_less (d :: ds) (Some p :: xs) (None :: ys) = true /\
+  sort_less (d :: ds) (None :: xs) (Some p :: ys) = false.
+Proof. split; reflexivity. Qed.
+
+Theorem sort_less_missing_tie d ds xs ys :
+  sort_less (d :: ds) (None :: xs) (None :: ys) = sort_less ds xs ys.
+Proof. reflexivity. Qed.
+
+(* a direction marker only affects its own term: [sort_less_step] uses [d] for the first
+   term only and [ds] for the rest; descending is ascending with the arguments exchanged,
+   no marker is ascending, and which keys tie does not depend on the direction *)
+Theorem term_lt_directions p q :
+  term_lt SortDefault = term_lt SortAscending /\
+  term_lt SortDescending (Some p) (Some q) = term_lt SortAscending (Some q) (Some p) /\
+  (forall d, equiv (term_lt d) (Some p) (Some q) = equiv key_lt p q).
+Proof.
+  split; [reflexivity|]. split; [reflexivity|].
+  intro d. apply (equiv_dir_lt d).
+Qed.
+
+Print Assumptions sort_less_swo.
+Print Assumptions sort_less_lex.
+
+Example sort_less_example :
+  let a := [Some (VNum (f_of_Z 1)); None; Some (VStr "x")] in
+  let b := [Some (VNum (f_of_Z 1)); None; Some (VStr "y")] in
+  let c := [Some (VNum (f_of_Z 2)); Some (VStr "k"); None] in
+  let ds := [SortDescending; SortDefault; SortDescending] in
+  tuple_ok [1; 2; 2] a /\ tuple_ok [1; 2; 2] b /\ tuple_ok [1; 2; 2] c /\
+  sort_less ds c a = true /\ sort_less ds b a = true /\ sort_less ds a b = false /\
+  sort_less ds a c = false.
+Proof.
+  cbv zeta. repeat split; repeat constructor.
+Qed.
+
+(* ==================================================================================== *)
+(* E. buildSortInfo                                                                     *)
+(* ==================================================================================== *)
+(* how the per-term kind can change while scanning the items: once 1 or 2, for ever *)
+Definition kext (k k' : nat) : Prop := (k = 1 -> k' = 1) /\ (k = 2 -> k' = 2).
+
+Lemma kext_refl k : kext k k.
+Proof. split; auto. Qed.
+Lemma kext_trans a b c : kext a b -> kext b c -> kext a c.
+Proof. intros [H1 H2] [H3 H4]. split; auto. Qed.
+
+Lemma key_typed_ext k k' v : key_typed k v -> kext k k' -> key_typed k' v.
+Proof. intros T [H1 H2]. destruct v as [[]|]; simpl in *; auto. Qed.
+
+Lemma tuple_typed_ext ks vs : tuple_typed ks vs -> forall ks', Forall2 kext ks ks' -> tuple_typed ks' vs.
+Proof.
+  induction 1 as [|k v ks vs Hk T IH]; intros ks' E; inversion E; subst; constructor.
+  - eapply key_typed_ext; eauto.
+  - now apply IH.
+Qed.
+
+Lemma Forall2_kext_refl ks : Forall2 kext ks ks.
+Proof. induction ks; constructor; auto using kext_refl. Qed.
+Lemma Forall2_kext_trans a : forall b c, Forall2 kext a b -> Forall2 kext b c -> Forall2 kext a c.
+Proof.
+  induction a as [|x a IH]; intros b c H1 H2; inversion H1; subst; inversion H2; subst;
+    constructor; eauto using kext_trans.
+Qed.
+
+Section SortInfo.
+  Variable evn : node -> ovalue -> M ovalue.
+
+  (* the key tuple of one item: one key per term, typed by the updated kinds; the keys are the
+     results of evaluating the term expressions on the item, left to right *)
+  Lemma sort_keys_ok it : forall ts ks w vs ks' w',
+    List.length ks = List.length ts ->
+    sort_keys evn it ts ks w = Ok (vs, ks') w' ->
+    List.length ks' = List.length ts /\ Forall2 kext ks ks' /\ tuple_typed ks' vs /\
+    steps (fun t : sortdir * node => evn (snd t) (Some it)) ts w vs w'.
+  Proof.
+    induction ts as [|[d te] tr IH]; intros ks w vs ks' w' Hl H.
+    - destruct ks; [|discriminate]. cbn [sort_keys] in H. apply ret_ok in H as [H <-].
+      injection H as <- <-. repeat split; constructor.
+    - destruct ks as [|k kr]; [discriminate|]. cbn [sort_keys] in H.
+      injection Hl as Hl.
+      apply bind_ok in H as (v & w1 & Ev & H).
+      assert (Rec : forall v0 k0,
+                 bind (sort_keys evn it tr kr)
+                      (fun x => let '(vs0, ks0) := x in ret (v0 :: vs0, k0 :: ks0)) w1
+                 = Ok (vs, ks') w' ->
+                 exists vs0 ks0, vs = v0 :: vs0 /\ ks' = k0 :: ks0 /\
+                   List.length ks0 = List.length tr /\ Forall2 kext kr ks0 /\
+                   tuple_typed ks0 vs0 /\
+                   steps (fun t : sortdir * node => evn (snd t) (Some it)) tr w1 vs0 w').
+      { intros v0 k0 H0. apply bind_ok in H0 as ([vs0 ks0] & w2 & H0 & R).
+        apply ret_ok in R as [R <-]. injection R as <- <-.
+        destruct (IH kr w1 vs0 ks0 w2 Hl H0) as (L & E & T & S). exists vs0, ks0. auto. }
+      destruct v as [p|].
+      + destruct p; try discriminate.
+        * destruct (k =? 2) eqn:Ek; [discriminate|]. apply Nat.eqb_neq in Ek.
+          destruct (Rec _ _ H) as (vs0 & ks0 & -> & -> & L & E & T & S).
+          split; [simpl; congruence|]. split; [|split].
+          -- constructor; [split; [reflexivity | intro; contradiction] | exact E].
+          -- constructor; [reflexivity | exact T].
+          -- econstructor; eauto.
+        * destruct (k =? 1) eqn:Ek; [discriminate|]. apply Nat.eqb_neq in Ek.
+          destruct (Rec _ _ H) as (vs0 & ks0 & -> & -> & L & E & T & S).
+          split; [simpl; congruence|]. split; [|split].
+          -- constructor; [split; [intro; contradiction | reflexivity] | exact E].
+          -- constructor; [reflexivity | exact T].
+          -- econstructor; eauto.
+      + destruct (Rec _ _ H) as (vs0 & ks0 & -> & -> & L & E & T & S).
+        split; [simpl; congruence|]. split; [|split].
+        * constructor; [apply kext_refl | exact E].
+        * constructor; [exact I | exact T].
+        * econstructor; eauto.
+  Qed.
+
+  Definition sort_info_step (terms : list (sortdir * node))
+    (st : list (value * list ovalue) * list nat) (it : value)
+    : M (list (value * list ovalue) * list nat) :=
+    let '(acc, kinds) := st in
+    '(vals, kinds') <- sort_keys evn it terms kinds ;;
+    ret (acc ++ [(it, vals)], kinds').
+
+  Lemma sort_info_unfold terms l :
+    sort_info evn terms l
+    = bind (foldM (sort_info_step terms) ([], map (fun _ => 0) terms) l)
+           (fun x => let '(info, _) := x in ret info).
+  Proof. reflexivity. Qed.
+
+  Lemma sort_info_fold_ok terms : forall l acc kinds w info kinds' w',
+    List.length kinds = List.length terms ->
+    foldM (sort_info_step terms) (acc, kinds) l w = Ok (info, kinds') w' ->
+    exists new, info = acc ++ new /\ map fst new = l /\
+                List.length kinds' = List.length terms /\ Forall2 kext kinds kinds' /\
+                Forall (fun p => tuple_typed kinds' (snd p)) new.
+  Proof.
+    induction l as [|it r IH]; intros acc kinds w info kinds' w' Hl H.
+    - cbn [foldM] in H. apply ret_ok in H as [H _]. injection H as <- <-.
+      exists []. rewrite app_nil_r. repeat split; auto using Forall2_kext_refl.
+    - rewrite foldM_cons in H. apply bind_ok in H as ([acc1 kinds1] & w1 & H1 & H2).
+      cbn [sort_info_step] in H1. apply bind_ok in H1 as ([vals k1] & w2 & K & R).
+      apply ret_ok in R as [R <-]. injection R as <- <-.
+      destruct (sort_keys_ok it terms kinds w vals k1 w2 Hl K) as (L1 & E1 & T1 & _).
+      destruct (IH _ _ _ _ _ _ L1 H2) as (new & -> & Hm & L2 & E2 & T2).
+      exists ((it, vals) :: new). rewrite <- app_assoc. split; [reflexivity|].
+      split; [simpl; congruence|]. split; [exact L2|].
+      split; [eapply Forall2_kext_trans; eauto|].
+      constructor; [|exact T2]. simpl. eapply tuple_typed_ext; eauto.
+  Qed.
+
+  (* C13.3/5 : a successful buildSortInfo returns one key tuple per item, in item order, and
+     the tuples are type-consistent column by column *)
+  Theorem sort_info_consistent terms l w info w' :
+    sort_info evn terms l w = Ok info w' ->
+    consistent terms info /\ map fst info = l.
+  Proof.
+    rewrite sort_info_unfold. intro H.
+    apply bind_ok in H as ([info0 kinds'] & w1 & H & R). apply ret_ok in R as [<- <-].
+    apply sort_info_fold_ok in H as (new & -> & Hm & L & E & T); [|apply map_length].
+    simpl. split; [|exact Hm]. exists kinds'. split; assumption.
+  Qed.
+End SortInfo.
+
+Print Assumptions sort_info_consistent.
+
+(* ---- errors, for a key evaluator that succeeds ---- *)
+Section SortErrors.
+  Variable evn : node -> ovalue -> M ovalue.
+  Variable g : node -> ovalue -> ovalue.
+  Hypothesis Hg : forall nd it w, evn nd it w = Ok (g nd it) w.
+
+  Definition keyof (it : value) (t : sortdir * node) : ovalue := g (snd t) (Some it).
+  Definition keys_of_item (terms : list (sortdir * node)) (it : value) : value * list ovalue :=
+    (it, map (keyof it) terms).
+
+  (* a term whose key is a number for one item and a string for another *)
+  Definition mixed_col (items : list value) (t : sortdir * node) : Prop :=
+    exists a b, In a items /\ In b items /\ is_num_key (keyof a t) /\ is_str_key (keyof b t).
+  Definition bad_key (items : list value) (terms : list (sortdir * node)) : Prop :=
+    exists it t, In it items /\ In t terms /\ ~ sortable_key (keyof it t).
+
+  Lemma mixed_col_incl s s' t : incl s s' -> mixed_col s t -> mixed_col s' t.
+  Proof. intros I (a & b & Ha & Hb & H). exists a, b. auto. Qed.
+
+  (* kinds remember a witness *)
+  Definition kwit (done : list value) (t : sortdir * node) (k : nat) : Prop :=
+    (k = 1 -> exists a, In a done /\ is_num_key (keyof a t)) /\
+    (k = 2 -> exists a, In a done /\ is_str_key (keyof a t)).
+
+  Lemma kwit_mono done it t k : kwit done t k -> kwit (it :: done) t k.
+  Proof.
+    intros [H1 H2]. split; intro E.
+    - destruct (H1 E) as (a & Ha & Hn). exists a. split; [now right|auto].
+    - destruct (H2 E) as (a & Ha & Hn). exists a. split; [now right|auto].
+  Qed.
+
+  Lemma sort_keys_pure it done : forall ts ks w,
+    Forall2 (kwit done) ts ks ->
+    (exists ks', sort_keys evn it ts ks w = Ok (map (keyof it) ts, ks') w /\
+                 Forall2 (kwit (it :: done)) ts ks')
+    \/ (sort_keys evn it ts ks w = Err (EEval ErrNonSortable) /\
+        exists t, In t ts /\ ~ sortable_key (keyof it t))
+    \/ (sort_keys evn it ts ks w = Err (EEval ErrSortMismatch) /\
+        exists t, In t ts /\ mixed_col (it :: done) t).
+  Proof.
+    intros ts ks w F. revert w. induction F as [|t k tr kr Wk F IH]; intro w.
+    - left. exists []. split; [reflexivity|constructor].
+    - destruct t as [d te].
+      remember (sort_keys evn it ((d, te) :: tr) (k :: kr) w) as R eqn:ER.
+      cbn [sort_keys] in ER. unfold bind at 1 in ER. rewrite Hg in ER.
+      assert (Rec : forall k0,
+        kwit (it :: done) (d, te) k0 ->
+        (exists ks', bind (sort_keys evn it tr kr)
+                       (fun x => let '(vs0, ks0) := x in ret (g te (Some it) :: vs0, k0 :: ks0)) w
+                     = Ok (map (keyof it) ((d, te) :: tr), ks') w /\
+                     Forall2 (kwit (it :: done)) ((d, te) :: tr) ks')
+        \/ (bind (sort_keys evn it tr kr)
+              (fun x => let '(vs0, ks0) := x in ret (g te (Some it) :: vs0, k0 :: ks0)) w
+            = Err (EEval ErrNonSortable) /\
+            exists t, In t ((d, te) :: tr) /\ ~ sortable_key (keyof it t))
+        \/ (bind (sort_keys evn it tr kr)
+              (fun x => let '(vs0, ks0) := x in ret (g te (Some it) :: vs0, k0 :: ks0)) w
+            = Err (EEval ErrSortMismatch) /\
+            exists t, In t ((d, te) :: tr) /\ mixed_col (it :: done) t)).
+      { intros k0 W0. unfold bind.
+        destruct (IH w) as [(ks' & E & W)|[(E & t & Ht & B)|(E & t & Ht & B)]]; rewrite E.
+        - left. exists (k0 :: ks'). split; [reflexivity|]. constructor; assumption.
+        - right; left. split; [reflexivity|]. exists t. split; [now right|exact B].
+        - right; right. split; [reflexivity|]. exists t. split; [now right|exact B]. }
+      assert (In0 : In (d, te) ((d, te) :: tr)) by now left.
+      destruct (g te (Some it)) as [p|] eqn:Ek.
+      + destruct p;
+          try (rewrite ER; right; left; split; [reflexivity|]; exists (d, te); split; [exact In0|];
+               unfold keyof; simpl; rewrite Ek; simpl; tauto).
+        * (* number *)
+          destruct (k =? 2) eqn:E2; rewrite ER.
+          -- apply Nat.eqb_eq in E2. right; right. split; [reflexivity|].
+             exists (d, te). split; [exact In0|].
+             destruct Wk as [_ W2]. destruct (W2 E2) as (a & Ha & Sa).
+             exists it, a. split; [now left|]. split; [now right|].
+             split; [|exact Sa]. unfold keyof; simpl. now rewrite Ek.
+          -- apply Rec. split; [|discriminate]. intros _. exists it. split; [now left|].
+             unfold keyof; simpl. now rewrite Ek.
+        * (* string *)
+          destruct (k =? 1) eqn:E1; rewrite ER.
+          -- apply Nat.eqb_eq in E1. right; right. split; [reflexivity|].
+             exists (d, te). split; [exact In0|].
+             destruct Wk as [W1 _]. destruct (W1 E1) as (a & Ha & Sa).
+             exists a, it. split; [now right|]. split; [now left|].
+             split; [exact Sa|]. unfold keyof; simpl. now rewrite Ek.
+          -- apply Rec. split; [discriminate|]. intros _. exists it. split; [now left|].
+             unfold keyof; simpl. now rewrite Ek.
+      + rewrite ER. apply Rec. now apply kwit_mono.
+  Qed.
+
+  Lemma sort_info_fold_pure terms : forall l done acc kinds w,
+    Forall2 (kwit done) terms kinds ->
+    (exists kinds', foldM (sort_info_step evn terms) (acc, kinds) l w
+                    = Ok (acc ++ map (keys_of_item terms) l, kinds') w)
+    \/ (foldM (sort_info_step evn terms) (acc, kinds) l w = Err (EEval ErrNonSortable) /\
+        bad_key l terms)
+    \/ (foldM (sort_info_step evn terms) (acc, kinds) l w = Err (EEval ErrSortMismatch) /\
+        exists t, In t terms /\ mixed_col (l ++ done) t).
+  Proof.
+    induction l as [|it r IH]; intros done acc kinds w F.
+    - left. exists kinds. simpl. now rewrite app_nil_r.
+    - remember (foldM (sort_info_step evn terms) (acc, kinds) (it :: r) w) as R eqn:ER.
+      rewrite foldM_cons in ER. cbn [sort_info_step] in ER.
+      unfold bind at 1 in ER. unfold bind at 1 in ER.
+      destruct (sort_keys_pure it done terms kinds w F)
+        as [(ks' & E & W)|[(E & t & Ht & B)|(E & t & Ht & B)]]; rewrite E in ER.
+      + cbn [ret] in ER.
+        destruct (IH (it :: done) (acc ++ [(it, map (keyof it) terms)]) ks' w W)
+          as [(kinds' & E')|[(E' & it' & t & Hi & Ht & B)|(E' & t & Ht & B)]];
+          rewrite E' in ER; rewrite ER.
+        * left. exists kinds'. now rewrite <- app_assoc.
+        * right; left. split; [reflexivity|]. exists it', t. split; [now right|auto].
+        * right; right. split; [reflexivity|]. exists t. split; [exact Ht|].
+          apply (mixed_col_incl (r ++ it :: done)); [|exact B].
+          intros x Hx. apply in_app_or in Hx as [Hx|[<-|Hx]].
+          -- right. apply in_or_app. now left.
+          -- now left.
+          -- right. apply in_or_app. now right.
+      + rewrite ER. right; left. split; [reflexivity|]. exists it, t. split; [now left|auto].
+      + rewrite ER. right; right. split; [reflexivity|]. exists t. split; [exact Ht|].
+        apply (mixed_col_incl (it :: done)); [|exact B].
+        intros x [<-|Hx]; [now left|]. right. apply in_or_app. now right.
+  Qed.
+
+  Lemma kwit_init terms : Forall2 (kwit []) terms (map (fun _ => 0) terms).
+  Proof. induction terms; constructor; auto. split; discriminate. Qed.
+
+  (* the three possible outcomes of buildSortInfo *)
+  Theorem sort_info_outcomes terms l w :
+    sort_info evn terms l w = Ok (map (keys_of_item terms) l) w
+    \/ (sort_info evn terms l w = Err (EEval ErrNonSortable) /\ bad_key l terms)
+    \/ (sort_info evn terms l w = Err (EEval ErrSortMismatch) /\
+        exists t, In t terms /\ mixed_col l t).
+  Proof.
+    rewrite sort_info_unfold. unfold bind.
+    destruct (sort_info_fold_pure terms l [] [] (map (fun _ => 0) terms) w (kwit_init terms))
+      as [(kinds' & E)|[(E & B)|(E & t & Ht & B)]]; rewrite E.
+    - left. reflexivity.
+    - right; left. auto.
+    - right; right. split; [reflexivity|]. exists t. split; [exact Ht|].
+      now rewrite app_nil_r in B.
+  Qed.
+
+  (* two tuples typed by the same kinds agree on the kind of every term *)
+  Lemma typed_same_kind a b : forall terms kinds t,
+    tuple_typed kinds (map (keyof a) terms) -> tuple_typed kinds (map (keyof b) terms) ->
+    In t terms -> exists k, key_typed k (keyof a t) /\ key_typed k (keyof b t).
+  Proof.
+    induction terms as [|t0 tr IH]; intros kinds t Ta Tb Ht; [contradiction|].
+    inversion Ta as [|k ? ks ? Ka Ta']; subst. inversion Tb as [|? ? ? ? Kb Tb']; subst.
+    destruct Ht as [<-|Ht]; [exists k; auto | eapply IH; eauto].
+  Qed.
+
+  Lemma consistent_no_error terms l :
+    consistent terms (map (keys_of_item terms) l) ->
+    ~ bad_key l terms /\ forall t, In t terms -> ~ mixed_col l t.
+  Proof.
+    intros (kinds & _ & T). rewrite Forall_map in T. rewrite Forall_forall in T. split.
+    - intros (it & t & Hi & Ht & B). apply B.
+      destruct (typed_same_kind it it terms kinds t (T it Hi) (T it Hi) Ht) as (k & K & _).
+      destruct (keyof it t) as [[]|]; simpl in *; auto.
+    - intros t Ht (a & b & Ha & Hb & Na & Sb).
+      destruct (typed_same_kind a b terms kinds t (T a Ha) (T b Hb) Ht) as (k & Ka & Kb).
+      destruct (keyof a t) as [[]|]; simpl in Na; try contradiction.
+      destruct (keyof b t) as [[]|]; simpl in Sb; try contradiction.
+      simpl in Ka, Kb. congruence.
+  Qed.
+
+  (* C13.5 : order-by succeeds exactly when every key is absent, a number or a string and no
+     term mixes numbers with strings; otherwise it fails with ErrNonSortable (only if some key
+     is of another type) or ErrSortMismatch (only if some term mixes numbers and strings) —
+     it never returns a silently mis-ordered result, and never panics *)
+  Theorem C13_errors terms l w :
+    (sort_info evn terms l w = Ok (map (keys_of_item terms) l) w <->
+       ~ bad_key l terms /\ forall t, In t terms -> ~ mixed_col l t) /\
+    (sort_info evn terms l w = Err (EEval ErrNonSortable) -> bad_key l terms) /\
+    (sort_info evn terms l w = Err (EEval ErrSortMismatch) -> exists t, In t terms /\ mixed_col l t) /\
+    (bad_key l terms \/ (exists t, In t terms /\ mixed_col l t) ->
+       sort_info evn terms l w = Err (EEval ErrNonSortable) \/
+       sort_info evn terms l w = Err (EEval ErrSortMismatch)).
+  Proof.
+    assert (OkC : sort_info evn terms l w = Ok (map (keys_of_item terms) l) w ->
+                  ~ bad_key l terms /\ forall t, In t terms -> ~ mixed_col l t).
+    { intro H. apply consistent_no_error. now apply (sort_info_consistent evn terms l w _ w). }
+    destruct (sort_info_outcomes terms l w) as [E|[(E & B)|(E & t & Ht & B)]].
+    - split; [split; auto|]. rewrite E. split; [discriminate|]. split; [discriminate|].
+      intros [B|(t & Ht & B)]; exfalso; destruct (OkC E) as [N1 N2]; [auto | eapply N2; eauto].
+    - split; [|split; [auto|split; [rewrite E; discriminate | auto]]].
+      split; [rewrite E; discriminate | intros [N _]; contradiction].
+    - split; [|split; [rewrite E; discriminate|split; [eauto | auto]]].
+      split; [rewrite E; discriminate | intros [_ N]; exfalso; eapply N; eauto].
+  Qed.
+End SortErrors.
+
+Print Assumptions C13_errors.
+
+(* ==================================================================================== *)
+(* F. order-by                                                                          *)
+(* ==================================================================================== *)
+(* the order on (item, key tuple) records: lexicographic key order of Spec/C13.v *)
+Definition info_lt (ds : list sortdir) : value * list ovalue -> value * list ovalue -> bool :=
+  on_key snd (lex_lt ds).
+
+(* C13.4 : the items returned by  seq^(k1, ..., kn)  (before the final normalizeArray) are THE
+   stable sorted permutation of the input items for the lexicographic key order: a
+   permutation, ordered term by term with the written directions, absent keys last, ties in
+   input order — and any other stable sort (sort.SliceStable) would return the same list *)
+Theorem C13_orderby evn terms l w info w' :
+  sort_info evn terms l w = Ok info w' -> keys_not_nan info ->
+  exists r,
+    sorted_items terms info = Some (normalize_array (map fst r)) /\
+    map fst info = l /\
+    stable_sorted_perm (info_lt (map fst terms)) info r /\
+    (forall r', stable_sorted_perm (info_lt (map fst terms)) info r' -> r' = r) /\
+    Permutation (map fst r) l.
+Proof.
+  intros H NN. destruct (sort_info_consistent evn terms l w info w' H) as [(kinds & Lk & T) Hm].
+  set (ds := map fst terms).
+  set (P := fun p : value * list ovalue => tuple_ok kinds (snd p)).
+  assert (Pl : Forall P info).
+  { unfold keys_not_nan in NN. rewrite Forall_forall in *. intros p Hp.
+    apply tuple_ok_of; [now apply T | now apply NN]. }
+  assert (O : swo_on (info_lt ds) P).
+  { apply (swo_on_key snd (lex_lt ds) (tuple_ok kinds)), lex_lt_swo. }
+  assert (E : stable_sort (fun a b => sort_less ds (snd a) (snd b)) info
+              = stable_sort (info_lt ds) info).
+  { apply stable_sort_ext. intros a b Ha Hb. rewrite Forall_forall in Pl.
+    apply (sort_less_lex ds kinds); [exact (Pl a Ha) | exact (Pl b Hb)]. }
+  exists (stable_sort (info_lt ds) info).
+  destruct (stable_sort_unique (info_lt ds) P info O Pl) as [S U].
+  split; [unfold sorted_items; fold ds; now rewrite E|].
+  split; [exact Hm|]. split; [exact S|]. split; [exact U|].
+  rewrite <- Hm. apply Permutation_map. apply S.
+Qed.
+
+Print Assumptions C13_orderby.
+
+(* a concrete instance: three objects sorted by  ^(>a, b)  with a tie and a missing key *)
+Definition ex_evn (nd : node) (it : ovalue) : M ovalue :=
+  ret (match nd, it with
+       | NName k _, Some (VObj m) => assoc_get k m
+       | _, _ => None
+       end).
+Definition ex_w0 : world := mkWorld [].
+Definition ex_obj (a : Z) (b : string) : value := VObj [("a", VNum (f_of_Z a)); ("b", VStr b)].
+Definition ex_items : list value :=
+  [ex_obj 1 "y"; VObj [("b", VStr "q")]; ex_obj 2 "x"; ex_obj 1 "x"; ex_obj 2 "x"; ex_obj 1 "y"].
+Definition ex_terms : list (sortdir * node) :=
+  [(SortDescending, NName "a" false); (SortDefault, NName "b" false)].
+
+Example C13_orderby_example :
+  exists info,
+    sort_info ex_evn ex_terms ex_items ex_w0 = Ok info ex_w0 /\ keys_not_nan info /\
+    sorted_items ex_terms info
+    = Some (VArr [ex_obj 2 "x"; ex_obj 2 "x"; ex_obj 1 "x"; ex_obj 1 "y"; ex_obj 1 "y";
+                  VObj [("b", VStr "q")]]).
+Proof.
+  eexists. split; [vm_compute; reflexivity|]. split; [|vm_compute; reflexivity].
+  repeat constructor.
+Qed.
+
+Example C13_errors_example :
+  sort_info ex_evn [(SortDefault, NName "a" false)]
+            [ex_obj 1 "y"; VObj [("a", VStr "1")]] ex_w0 = Err (EEval ErrSortMismatch) /\
+  sort_info ex_evn [(SortDefault, NName "a" false)]
+            [ex_obj 1 "y"; VObj [("a", VBool true)]] ex_w0 = Err (EEval ErrNonSortable).
+Proof. split; vm_compute; reflexivity. Qed.
+
+(* ==================================================================================== *)
+(* G. $sort                                                                             *)
+(* ==================================================================================== *)
+Lemma all_numbers_map xs : all_numbers (map VNum xs) = true.
+Proof. induction xs; simpl; auto. Qed.
+Lemma all_strings_map xs : all_strings (map VStr xs) = true.
+Proof. induction xs; simpl; auto. Qed.
+Lemma somes_num_of_map xs : somes (map num_of (map VNum xs)) = xs.
+Proof. induction xs; simpl; congruence. Qed.
+Lemma somes_str_of_map xs : somes (map str_of (map VStr xs)) = xs.
+Proof. induction xs; simpl; congruence. Qed.
+
+Lemma all_numbers_inv l : all_numbers l = true -> exists xs, l = map VNum xs.
+Proof.
+  induction l as [|v r IH]; simpl; intro H; [now exists []|].
+  destruct v; try discriminate. destruct (IH H) as (xs & ->). now exists (x :: xs).
+Qed.
+Lemma all_strings_inv l : all_strings l = true -> exists xs, l = map VStr xs.
+Proof.
+  induction l as [|v r IH]; simpl; intro H; [now exists []|].
+  destruct v; try discriminate. destruct (IH H) as (xs & ->). now exists (s :: xs).
+Qed.
+
+Section LibSort.
+  Variable apply : callable -> list ovalue -> M ovalue.
+
+  (* C13.6 : $sort(a) of an all-number array is the stable ascending sort of its members *)
+  Theorem lib_sort_numbers xs w :
+    lib_sort apply (Some (VArr (map VNum xs))) None w
+    = Ok (Some (VArr (map VNum (stable_sort fltb xs)))) w.
+  Proof.
+    unfold lib_sort. now rewrite all_numbers_map, somes_num_of_map.
+  Qed.
+
+  Theorem lib_sort_numbers_spec xs :
+    Forall not_nan xs ->
+    stable_sorted_perm fltb xs (stable_sort fltb xs) /\
+    forall r, stable_sorted_perm fltb xs r -> r = stable_sort fltb xs.
+  Proof. apply stable_sort_unique, fltb_swo. Qed.
+
+  (* ... and of an all-string array likewise, bytewise *)
+  Theorem lib_sort_strings xs w :
+    lib_sort apply (Some (VArr (map VStr xs))) None w
+    = Ok (Some (VArr (map VStr (stable_sort sltb xs)))) w.
+  Proof.
+    unfold lib_sort. destruct xs as [|s xs]; [reflexivity|].
+    change (all_numbers (map VStr (s :: xs))) with false. cbv iota.
+    now rewrite all_strings_map, somes_str_of_map.
+  Qed.
+
+  Theorem lib_sort_strings_spec xs :
+    stable_sorted_perm sltb xs (stable_sort sltb xs) /\
+    forall r, stable_sorted_perm sltb xs r -> r = stable_sort sltb xs.
+  Proof.
+    apply (stable_sort_unique sltb (fun _ => True)); [apply sltb_swo|].
+    rewrite Forall_forall; auto.
+  Qed.
+
+  (* any other array without comparator is an error, never a mis-ordered result *)
+  Theorem lib_sort_default_error l w :
+    all_numbers l = false -> all_strings l = false ->
+    lib_sort apply (Some (VArr l)) None w = Err (ELib "sort: array of strings or numbers").
+  Proof. intros H1 H2. unfold lib_sort. now rewrite H1, H2. Qed.
+
+  Theorem lib_sort_default_ok_inv l w r w' :
+    lib_sort apply (Some (VArr l)) None w = Ok r w' ->
+    (exists xs, l = map VNum xs) \/ (exists xs, l = map VStr xs).
+  Proof.
+    unfold lib_sort. destruct (all_numbers l) eqn:E1; [left; now apply all_numbers_inv|].
+    destruct (all_strings l) eqn:E2; [right; now apply all_strings_inv|]. discriminate.
+  Qed.
+
+  (* a non-array value counts as a one-member array; no value stays no value *)
+  Theorem lib_sort_scalar x sw w :
+    (forall l, x <> VArr l) -> lib_sort apply (Some x) sw w = Ok (Some (VArr [x])) w.
+  Proof. intro N. destruct x; try reflexivity. now destruct (N l). Qed.
+
+  Theorem lib_sort_undefined sw w : lib_sort apply None sw w = Ok None w.
+  Proof. reflexivity. Qed.
+
+  (* $sort(a, f) for a comparator that always answers with a boolean *)
+  Variable fn : callable.
+  Variable sw : value -> value -> bool.
+  Hypothesis Hfn : forall a b w, apply fn [Some a; Some b] w = Ok (Some (VBool (sw a b))) w.
+
+  Theorem lib_sort_comparator_perm l w :
+    exists r, lib_sort apply (Some (VArr l)) (Some fn) w = Ok (Some (VArr r)) w /\ Permutation r l.
+  Proof.
+    unfold lib_sort.
+    set (swap := fun a b => r <- apply fn [Some a; Some b] ;;
+                            match r with
+                            | Some (VBool t) => ret t
+                            | _ => fail (ELib "sort: comparator must return a boolean")
+                            end).
+    assert (Hs : forall x y w, swap x y w = Ok (sw x y) w).
+    { intros x y w0. unfold swap, bind. now rewrite Hfn. }
+    destruct (merge_sort_perm swap sw Hs (S (List.length l)) l w) as (r & Hr & Hp); [lia|].
+    exists r. unfold bind. rewrite Hr. split; [reflexivity | exact Hp].
+  Qed.
+
+  Theorem lib_sort_comparator_stable (lt : value -> value -> bool) (P : value -> Prop) l w :
+    swo_on lt P -> (forall x y, sw x y = lt y x) -> Forall P l ->
+    lib_sort apply (Some (VArr l)) (Some fn) w = Ok (Some (VArr (stable_sort lt l))) w /\
+    stable_sorted_perm lt l (stable_sort lt l).
+  Proof.
+    intros O SW Pl. unfold lib_sort.
+    set (swap := fun a b => r <- apply fn [Some a; Some b] ;;
+                            match r with
+                            | Some (VBool t) => ret t
+                            | _ => fail (ELib "sort: comparator must return a boolean")
+                            end).
+    assert (Hs : forall x y w, swap x y w = Ok (sw x y) w).
+    { intros x y w0. unfold swap, bind. now rewrite Hfn. }
+    destruct (merge_sort_stable_sorted swap sw Hs lt P (S (List.length l)) l w O SW Pl) as [Hr S];
+      [lia|].
+    unfold bind. rewrite Hr. split; [reflexivity | exact S].
+  Qed.
+End LibSort.
+
+Print Assumptions lib_sort_numbers.
+Print Assumptions lib_sort_comparator_perm.
+Print Assumptions lib_sort_comparator_stable.
+
+(* concrete instances: a comparator on the member "a" (ties keep input order), and an
+   inconsistent comparator (always "swap") that still returns a permutation *)
+Definition ex_swap_a (x y : value) : M bool :=
+  ret (match x, y with
+       | VObj m, VObj n => match assoc_get "a" m, assoc_get "a" n with
+                           | Some (VNum p), Some (VNum q) => fltb q p
+                           | _, _ => false
+                           end
+       | _, _ => false
+       end).
+
+Example merge_sort_example :
+  merge_sort_fuel 7 ex_swap_a
+    [ex_obj 2 "p"; ex_obj 1 "q"; ex_obj 2 "r"; ex_obj 0 "s"; ex_obj 1 "t"; ex_obj 2 "u"] ex_w0
+  = Ok [ex_obj 0 "s"; ex_obj 1 "q"; ex_obj 1 "t"; ex_obj 2 "p"; ex_obj 2 "r"; ex_obj 2 "u"] ex_w0.
+Proof. vm_compute. reflexivity. Qed.
+
+Example merge_sort_inconsistent_example :
+  merge_sort_fuel 6 (fun _ _ => ret true)
+    [VNum (f_of_Z 1); VNum (f_of_Z 2); VNum (f_of_Z 3); VNum (f_of_Z 4); VNum (f_of_Z 5)] ex_w0
+  = Ok [VNum (f_of_Z 5); VNum (f_of_Z 4); VNum (f_of_Z 3); VNum (f_of_Z 2); VNum (f_of_Z 1)] ex_w0.
+Proof. vm_compute. reflexivity. Qed.
+
+Example lib_sort_example :
+  lib_sort (fun _ _ => ret None)
+    (Some (VArr [VNum (f_of_Z 3); VNum (f_of_Z (-1)); VNum (f_of_Z 2); VNum (f_of_Z (-1))])) None ex_w0
+  = Ok (Some (VArr [VNum (f_of_Z (-1)); VNum (f_of_Z (-1)); VNum (f_of_Z 2); VNum (f_of_Z 3)])) ex_w0
+  /\ lib_sort (fun _ _ => ret None) (Some (VArr [VStr "b"; VStr "B"; VStr "a"; VStr ""])) None ex_w0
+     = Ok (Some (VArr [VStr ""; VStr "B"; VStr "a"; VStr "b"])) ex_w0
+  /\ lib_sort (fun _ _ => ret None) (Some (VArr [VStr "b"; VNum (f_of_Z 1)])) None ex_w0
+     = Err (ELib "sort: array of strings or numbers").
+Proof. repeat split; vm_compute; reflexivity. Qed.
+
+(* ==================================================================================== *)
+(* H. the evaluator's sort node                                                         *)
+(* ==================================================================================== *)
+(* evalSort is: evaluate the sequence, build the sort info with the evaluator itself as key
+   evaluator, and return [sorted_items]; so C13_orderby applies to every successful
+   evaluation of  e^(terms) *)
+Lemma eval_sort_unfold fm rx pw ex f e terms input env :
+  eval_sort fm rx pw ex (S f) e terms input env
+  = (items <- eval fm rx pw ex f e input env ;;
+     match items with
+     | None => ret None
+     | Some _ =>
+         info <- sort_info (fun nd it => eval fm rx pw ex f nd it env) terms (arrayify items) ;;
+         ret (sorted_items terms info)
+     end).
+Proof. reflexivity. Qed.
+
+Theorem C13_eval_sort fm rx pw ex f e terms input env w r w' :
+  eval_sort fm rx pw ex (S f) e terms input env w = Ok r w' ->
+  (r = None /\ eval fm rx pw ex f e input env w = Ok None w') \/
+  exists items w1 info,
+    eval fm rx pw ex f e input env w = Ok (Some items) w1 /\
+    sort_info (fun nd it => eval fm rx pw ex f nd it env) terms (arrayify (Some items)) w1
+    = Ok info w' /\
+    consistent terms info /\
+    (keys_not_nan info ->
+     exists rr, r = Some (normalize_array (map fst rr)) /\
+                stable_sorted_perm (info_lt (map fst terms)) info rr /\
+                (forall r', stable_sorted_perm (info_lt (map fst terms)) info r' -> r' = rr) /\
+                Permutation (map fst rr) (arrayify (Some items))).
+Proof.
+  rewrite eval_sort_unfold. intro H. apply bind_ok in H as (items & w1 & E & H).
+  destruct items as [items|].
+  - right. apply bind_ok in H as (info & w2 & I & R). apply ret_ok in R as [<- <-].
+    exists items, w1, info. split; [exact E|]. split; [exact I|].
+    split; [apply (sort_info_consistent _ _ _ _ _ _ I)|].
+    intro NN. destruct (C13_orderby _ _ _ _ _ _ I NN) as (rr & H1 & _ & H3 & H4 & H5).
+    exists rr. auto.
+  - left. apply ret_ok in H as [<- <-]. auto.
+Qed.
+
+Print Assumptions C13_eval_sort.
